@@ -111,7 +111,8 @@ def _case(draw):
     if draw(st.booleans()) and case.get("_spelling") != "case-twins":
         from ..plain import infer_species
 
-        sp_names = [parse_newick(case["species_tree"]).name[n] for n in parse_newick(case["species_tree"]).nodes()]
+        _st = parse_newick(case["species_tree"])
+        sp_names = [_st.name[n] for n in _st.nodes() if _st.is_leaf(n)]
         if infer_species(list(case["leaf_object_species"]), sp_names) == case["leaf_object_species"]:
             del case["leaf_object_species"]
     if gen.chance(draw, 1, 10):
